@@ -26,7 +26,18 @@ PROPS = ["C01", "C02", "C03", "C04", "C05", "C07", "C08", "C09", "C10", "C11", "
 def run(prop, tier):
     mod = importlib.import_module("rules." + prop.lower())
     ctx = mod.make_ctx(tier)
-    mod.run(ctx, tier)
+    try:
+        mod.run(ctx, tier)
+    except AnalysisBroken as e:
+        # an anchor or instance floor gave way *after* specific violations were found: those
+        # are concrete constructs and are reported as such; otherwise the run is analysis-broken
+        if not ctx.viol:
+            raise
+        rc = ctx.finish()
+        print("note: the analysis also stopped early: %s" % e)
+        if rc == 1:
+            return 1
+        raise
     return ctx.finish()
 
 
